@@ -433,6 +433,15 @@ def run(ctx):
               trivial=True)
 
     ini_ = meths.get('__init__')
+    # ---- R12s (C14 M2e): an overriding category registered "before" another one is consulted before it
+    ctx.rule('R12s', 'a category added with insert_before / insert_after lands on the stated side of the named category: a user '
+                     'category with MacroTextSpec(.., discard=True) registered insert_before the defaults takes precedence over '
+                     'them -- on the other side the default rendering wins and the construct declared as discarded still '
+                     'contributes its text (C14 M2e)', 4)
+    from .. import core as _core12
+    from . import c14 as _c14b
+    _core12.run_proxied(ctx, _c14b, 'R12s', ('M2e',))
+
     # ---- R12r: rendered argument text is not re-cased
     ctx.rule('R12r', 'no replacement of the default text tables applies a case mapping (upper / lower / title / capitalize / '
                      'swapcase) to text rendered from an argument: a formula inside that argument has then passed the math_mode '
